@@ -72,6 +72,18 @@ func c18CanBind(proto string, port int) bool {
 	return false
 }
 
+// c18OwnSockets: inodes of the sockets this process holds.
+func c18OwnSockets() map[string]bool {
+	own := map[string]bool{}
+	ents, _ := os.ReadDir("/proc/self/fd")
+	for _, e := range ents {
+		if l, err := os.Readlink("/proc/self/fd/" + e.Name()); err == nil && strings.HasPrefix(l, "socket:[") {
+			own[strings.TrimSuffix(strings.TrimPrefix(l, "socket:["), "]")] = true
+		}
+	}
+	return own
+}
+
 func TestVerifC18Startup(t *testing.T) {
 	rep := report.New("C18 start-up failure and router close")
 	defer rep.Write()
@@ -79,9 +91,11 @@ func TestVerifC18Startup(t *testing.T) {
 	failing := []string{"port-in-use", "port-in-use:gnet", "port-in-use:http", "port-in-use:fasthttp", "port-in-use:tls", "port-in-use:https", "port-in-use:udp", "port-in-use:quic",
 		"missing-cert", "missing-cert:https", "missing-cert:quic", "unknown-protocol", "bad-listen-address",
 		// not a listener at all: the configuration fails before / after the listeners, with a metrics endpoint configured
-		"upstream-with-unknown-protocol", "missing-domain-set-file", "rule-names-unknown-upstream"}
+		"upstream-with-unknown-protocol", "missing-domain-set-file", "rule-names-unknown-upstream",
+		// an upstream entry that is rejected after (or before) its transport was built: quic and h3 upstreams bind a UDP socket when they are made
+		"duplicate-upstream-tag:quic", "duplicate-upstream-tag:h3", "duplicate-upstream-tag:tcp"}
 	rep.Rule = fmt.Sprintf("real run() on loopback: 3-server configurations with one failing entry %v (the entries without a loadable certificate must not leave their own address bound either) at index 0,1,2 and the other two entries drawn (rotating) from the healthy kinds %v; plus every healthy kind alone, closed twice; "+
-		"plus configurations whose failure is not a listener (upstream with an unknown protocol, missing domain-set file, rule naming an unknown upstream) with a metrics endpoint configured; oracle: run() returns an error without panicking, no listening socket of the healthy entries (nor the metrics endpoint) is left in the process afterwards (own-fd x /proc/net LISTEN/UDP check); a healthy router's close() is idempotent and frees its ports, also with a request in flight against a silent upstream (udp, tcp, gnet, http, fasthttp), where it returns without waiting for the request's deadline (fastest of 3 attempts under 3 s); distinct = distinct configurations", failing, healthy)
+		"plus configurations whose failure is not a listener (upstream with an unknown protocol, missing domain-set file, rule naming an unknown upstream, a repeated upstream tag whose second entry is quic / h3 / tcp) with a metrics endpoint configured; oracle: after a failed start-up the process holds no socket it did not hold before (garbage collector off); run() returns an error without panicking, no listening socket of the healthy entries (nor the metrics endpoint) is left in the process afterwards (own-fd x /proc/net LISTEN/UDP check); a healthy router's close() is idempotent and frees its ports, also with a request in flight against a silent upstream (udp, tcp, gnet, http, fasthttp), where it returns without waiting for the request's deadline (fastest of 3 attempts under 3 s); distinct = distinct configurations", failing, healthy)
 	if sh, _ := report.Shard(); sh != 0 {
 		rep.Eval("idle-shard")
 		rep.Eval("idle-shard2")
@@ -120,7 +134,7 @@ func TestVerifC18Startup(t *testing.T) {
 			}
 			var bounds []bound
 			var blocker io.Closer
-			if fk == "upstream-with-unknown-protocol" || fk == "missing-domain-set-file" || fk == "rule-names-unknown-upstream" {
+			if fk == "upstream-with-unknown-protocol" || fk == "missing-domain-set-file" || fk == "rule-names-unknown-upstream" || strings.HasPrefix(fk, "duplicate-upstream-tag") {
 				mport := c18FreePort()
 				cfg.Metrics.Addr = fmt.Sprintf("127.0.0.1:%d", mport)
 				bounds = append(bounds, bound{"metrics", mport})
@@ -132,12 +146,18 @@ func TestVerifC18Startup(t *testing.T) {
 					cfg.DomainSets = []DomainSetConfig{{Tag: "d", Files: []string{filepath.Join(dir, "no-such-list.txt")}}}
 				case "rule-names-unknown-upstream":
 					cfg.Rules = []RuleConfig{{Forward: "nobody"}}
+				case "duplicate-upstream-tag:quic":
+					cfg.Upstreams = append(cfg.Upstreams, UpstreamConfig{Tag: "u", Addr: "quic://127.0.0.1:853"})
+				case "duplicate-upstream-tag:h3":
+					cfg.Upstreams = append(cfg.Upstreams, UpstreamConfig{Tag: "u", Addr: "h3://127.0.0.1/dns-query"})
+				case "duplicate-upstream-tag:tcp":
+					cfg.Upstreams = append(cfg.Upstreams, UpstreamConfig{Tag: "u", Addr: "tcp://127.0.0.1"})
 				}
 			}
 			for i := 0; i < 3; i++ {
 				if i == idx {
 					switch fk {
-					case "upstream-with-unknown-protocol", "missing-domain-set-file", "rule-names-unknown-upstream":
+					case "upstream-with-unknown-protocol", "missing-domain-set-file", "rule-names-unknown-upstream", "duplicate-upstream-tag:quic", "duplicate-upstream-tag:h3", "duplicate-upstream-tag:tcp":
 						// all three server entries are healthy here
 						kind := healthy[(n+i*3+fi)%len(healthy)]
 						port := c18FreePort()
@@ -183,7 +203,28 @@ func TestVerifC18Startup(t *testing.T) {
 			n++
 			desc := fmt.Sprintf("failing=%s at index %d, healthy=%v", fk, idx, bounds)
 			rep.Eval(desc)
+			socksBefore := c18OwnSockets()
 			r, err, p := runCfg(cfg)
+			if err != nil && p == nil {
+				// everything the failed start-up had opened is released: the process holds no socket it did not hold before (listeners,
+				// upstream sockets made when the upstream was built, the metrics endpoint); closing may take a moment
+				var extra []string
+				for i := 0; i < 50; i++ {
+					extra = extra[:0]
+					for ino := range c18OwnSockets() {
+						if !socksBefore[ino] {
+							extra = append(extra, ino)
+						}
+					}
+					if len(extra) == 0 {
+						break
+					}
+					time.Sleep(100 * time.Millisecond)
+				}
+				if len(extra) > 0 {
+					rep.Violate("C18:startup:socket-leaked:"+fk, fmt.Sprintf("after the failed start-up the process holds %d socket(s) it did not hold before (inodes %v): %s", len(extra), extra, desc), nil)
+				}
+			}
 			if blocker != nil {
 				blocker.Close()
 			}
